@@ -406,6 +406,18 @@ Theorem C14_src_backward_calc_outcome : forall cfg w,
   outcome_code (src_backward_calc cfg w (map raw_dyn w)) = outcome_code (backward cfg w).
 Proof. exact src_backward_calc_outcome. Qed.
 
+(* ---- _check_loops from the source text (gen/SrcPass.v: src_check_loops; Sched/SrcLoopsEquiv.v): the depth-first search for
+   a cycle of plain dependencies returns on every well-formed WBS - the call that the translation of calc leaves out never
+   raises on the inputs of the theorems - and refuses a task that is its own predecessor. ---- *)
+From PJ Require Import Sched.SrcLoopsEquiv.
+
+Theorem C14_src_check_loops_accepts : forall w, WFin w -> src_check_loops w = Ok tt.
+Proof. exact src_check_loops_accepts. Qed.
+
+Theorem C14_src_check_loops_refuses_self_loop : forall w t, (t < length w)%nat -> k_ext (gett w t) = false ->
+  In t (k_preds (gett w t)) -> src_check_loops w <> Ok tt.
+Proof. exact src_check_loops_refuses_self_loop. Qed.
+
 Print Assumptions C14_total_forward.
 Print Assumptions C14_total_backward.
 Print Assumptions C14_compute_no_crash.
@@ -444,3 +456,5 @@ Print Assumptions C14_src_validate_graph_isolation.
 Print Assumptions C14_src_check_no_end_dates_in_future.
 Print Assumptions C14_src_forward_calc_outcome.
 Print Assumptions C14_src_backward_calc_outcome.
+Print Assumptions C14_src_check_loops_accepts.
+Print Assumptions C14_src_check_loops_refuses_self_loop.
